@@ -235,8 +235,28 @@ def _pomdp_case(case, rng):
     S, A, OL = list(pomdp.state_list), list(pomdp.action_list), list(pomdp.observation_list)
     if set(S) != set(sp.states):
         raise Inconclusive("state_list differs from closure")
-    kind = rng.choice(["alpha", "fsc"])
-    if kind == "alpha":
+    kind = rng.choice(["alpha", "fsc", "nodes"])
+    nn = None
+    if kind == "nodes":
+        # a deterministic-memory controller whose agent states are the integers 0..n-1 (node 0 is a node like any other)
+        from msdm.core.pomdp.policy import POMDPPolicy
+        from msdm.core.distributions import DictDistribution
+        nn = rng.randint(2, 3)
+        act_rows = [dict(zip(A, _simplex(rng, len(A)))) for _ in range(nn)]
+        nxt = {(n_, a_, o_): rng.randrange(nn) for n_ in range(nn) for a_ in A for o_ in OL}
+        first = rng.randrange(1, nn)
+
+        class NodePolicy(POMDPPolicy):
+            def initial_agentstate(self):
+                return first
+
+            def action_dist(self, ag):
+                return DictDistribution({a_: p_ for a_, p_ in act_rows[ag].items() if p_ > 0})
+
+            def next_agentstate(self, ag, a, o):
+                return nxt[(ag, a, o)]
+        policy = NodePolicy()
+    elif kind == "alpha":
         k = rng.randint(1, 3)
         alphas = np.array([[rng.choice([-3.0, -1.0, 0.0, 0.5, 2.0]) for _ in S] for _ in range(k)])
         policy = AlphaVectorPolicy(pomdp, alphas)
@@ -259,20 +279,33 @@ def _pomdp_case(case, rng):
     for _ in range(4):
         cap = rng.choice(CAPS)
         # a belief-tracking policy is only meaningful from a start state its initial belief allows
-        start = rng.choice([None, None] + (S if kind == "fsc" else sorted(init_support, key=repr)))
+        start = rng.choice([None, None] + (S if kind in ("fsc", "nodes") else sorted(init_support, key=repr)))
         seed = rng.randrange(2 ** 31)
+        # the agent state may be given explicitly too (resuming a roll-out): node 0, a vertex of the node simplex, ...
+        given_ag = None
+        if kind == "nodes" and rng.random() < 0.6:
+            given_ag = rng.randrange(nn)
+        elif kind == "fsc" and rng.random() < 0.4:
+            given_ag = np.zeros(len(policy.initial_agentstate()))
+            given_ag[rng.randrange(len(given_ag))] = 1.0
+        kw_ag = {} if given_ag is None else dict(initial_agentstate=given_ag)
         traj = case.call("POMDPPolicy.run_on", policy.run_on, pomdp, initial_state=start, max_steps=cap,
-                         rng=_random.Random(seed))
+                         rng=_random.Random(seed), **kw_ag)
         case.count("pomdp_rollouts")
         if traj is case.FAIL:
             continue
         n = len(traj) - 1
         longest = max(longest, n)
+        if given_ag is not None:
+            case.count("pomdp_rollouts_from_given_agentstate")
+            case.check(same_ag(traj[0].agentstate, given_ag), "pomdp-rollout:does-not-start-at-given-agentstate",
+                       lambda: f"given {given_ag!r} got {traj[0].agentstate!r}", policy_kind=kind)
         if start is not None:
             case.check(traj[0].state == start, "pomdp-rollout:does-not-start-at-given-state", "")
         else:
             case.check(traj[0].state in init_support, "pomdp-rollout:sampled-start-not-in-initial-support", repr(traj[0].state))
-        case.check(same_ag(traj[0].agentstate, policy.initial_agentstate()), "pomdp-rollout:first-agentstate!=initial_agentstate", "")
+        if given_ag is None:
+            case.check(same_ag(traj[0].agentstate, policy.initial_agentstate()), "pomdp-rollout:first-agentstate!=initial_agentstate", "")
         case.check(n <= cap, "pomdp-rollout:more-steps-than-cap", f"{n} > {cap}")
         for k in range(n):
             st = traj[k]
